@@ -5,5 +5,7 @@ ASSUME PrintT(ToJson([servers |-> {R1}]))
 OnlyS1 == {S1}
 OnlyS2 == {S2}
 OnlyS3 == {S3}
+OnlyS5 == {S5}
+OnlyS7 == {S7}
 OnlyR1 == {R1}
 ====
